@@ -542,18 +542,17 @@ class Graph(object):
                 elif not np.array_equal(g2o_params[key].value.to_array(), e.offset.to_array()):
                     raise ValueError("Conflicting offsets for `offset_id` {}".format(e.offset_id))
 
+        # Build the whole file content first, so that a graph that cannot be written does not leave a truncated file behind
+        lines = [g2o_param.to_g2o() for g2o_param in g2o_params.values()]
+        lines.extend(v.to_g2o() for v in self._vertices)
+        for e in self._edges:
+            edge_str_or_none = e.to_g2o()
+            if edge_str_or_none:
+                lines.append(edge_str_or_none)
+
         with open(outfile, "w") as f:
-            if g2o_params:
-                for g2o_param in g2o_params.values():
-                    f.write(g2o_param.to_g2o())
-
-            for v in self._vertices:
-                f.write(v.to_g2o())
-
-            for e in self._edges:
-                edge_str_or_none = e.to_g2o()
-                if edge_str_or_none:
-                    f.write(edge_str_or_none)
+            for line in lines:
+                f.write(line)
 
     @classmethod
     def from_g2o(cls, infile, custom_edge_types=None):
